@@ -15,6 +15,7 @@
 From Coq Require Import Decimal DecimalN DecimalFacts.
 From Coq Require Import NArith ZArith Bool List.
 From Imdl Require Import Model.Bencode Model.Float53.
+From Imdl Require Export Model.BencodeWide.
 Import ListNotations.
 Local Open Scope N_scope.
 
@@ -106,112 +107,8 @@ Fixpoint hex_decode (bs : bytes) : option bytes :=
   | _ => None
   end.
 
-(* ------------------------------------------------------------------ bencode as bendy reads it, integers of any size *)
-(** [Bencode.decode] checks the i64 range in the tokenizer; bendy checks it only where an
-    integer is parsed into i64 ([Value], [deserialize_any]), while `creation date` and
-    `piece length` are parsed as u64. The structure reader below is [Bencode.decode]
-    without the range check; [all_i64] is applied where the code parses i64. *)
-Definition wdec_int (r : bytes) : option (value * bytes) :=
-  match hd_is 45 r with
-  | Some r1 =>
-      let '(u, r2) := take_digits r1 in
-      if nonzero_start u then
-        match hd_is 101 r2 with Some r3 => Some (Int (- Z.of_N (N.of_uint u))%Z, r3) | None => None end
-      else None
-  | None =>
-      let '(u, r2) := take_digits r in
-      if canon u then
-        match hd_is 101 r2 with Some r3 => Some (Int (Z.of_N (N.of_uint u)), r3) | None => None end
-      else None
-  end.
-
-(** [Bencode.dec_str] with the length compared in [N] before it is turned into a [nat]
-    (same function; a length literal of twenty digits must not be unfolded into a unary number) *)
-Definition wdec_str (bs : bytes) : option (bytes * bytes) :=
-  let '(u, r) := take_digits bs in
-  if canon u then
-    match hd_is 58 r with
-    | Some r1 =>
-        let n := N.of_uint u in
-        if n <=? N.of_nat (length r1) then Some (firstn (N.to_nat n) r1, skipn (N.to_nat n) r1) else None
-    | None => None
-    end
-  else None.
-
-Fixpoint wdecode (fuel : nat) (bs : bytes) {struct fuel} : option (value * bytes) :=
-  match fuel with
-  | O => None
-  | S f =>
-      match hd_is 105 bs with
-      | Some r => wdec_int r
-      | None =>
-      match hd_is 108 bs with
-      | Some r => match wdecode_list f r with Some (l, r') => Some (Lst l, r') | None => None end
-      | None =>
-      match hd_is 100 bs with
-      | Some r => match wdecode_dict f None r with Some (d, r') => Some (Dict d, r') | None => None end
-      | None => match wdec_str bs with Some (s, r) => Some (Str s, r) | None => None end
-      end end end
-  end
-with wdecode_list (fuel : nat) (bs : bytes) {struct fuel} : option (list value * bytes) :=
-  match fuel with
-  | O => None
-  | S f =>
-      match hd_is 101 bs with
-      | Some r => Some ([], r)
-      | None => match wdecode f bs with
-                | Some (v, r) => match wdecode_list f r with
-                                 | Some (vs, r') => Some (v :: vs, r')
-                                 | None => None
-                                 end
-                | None => None
-                end
-      end
-  end
-with wdecode_dict (fuel : nat) (last : option bytes) (bs : bytes) {struct fuel}
-  : option (list (bytes * value) * bytes) :=
-  match fuel with
-  | O => None
-  | S f =>
-      match hd_is 101 bs with
-      | Some r => Some ([], r)
-      | None => match wdec_str bs with
-                | Some (k, r) =>
-                    if (match last with None => true | Some l => bytes_ltb l k end) then
-                      match wdecode f r with
-                      | Some (v, r1) => match wdecode_dict f (Some k) r1 with
-                                        | Some (kvs, r2) => Some ((k, v) :: kvs, r2)
-                                        | None => None
-                                        end
-                      | None => None
-                      end
-                    else None
-                | None => None
-                end
-      end
-  end.
-
-(** every token consumes at least one byte and every level of the three functions spends
-    one unit of fuel per token, so twice the length (plus a margin) is enough *)
-Definition fuel_for (bs : bytes) : nat := S (S (2 * length bs)).
-
-Fixpoint all_i64 (v : value) : bool :=
-  match v with
-  | Int z => i64_ok z
-  | Str _ => true
-  | Lst l => forallb all_i64 l
-  | Dict d => forallb (fun kv => all_i64 (snd kv)) d
-  end.
-
-Fixpoint depth (v : value) : N :=
-  match v with
-  | Int _ | Str _ => 0
-  | Lst l => 1 + fold_right (fun x m => N.max (depth x) m) 0 l
-  | Dict d => 1 + fold_right (fun kv m => N.max (depth (snd kv)) m) 0 d
-  end.
-
-(** bendy's default and, after repair 0007, [Infohash::decode_value]'s nesting limit *)
-Definition max_depth : N := 2048.
+(* the structure reader with integers of any size ([wdecode]), [all_i64], [depth] and [max_depth] are shared with the
+   other loader models: Model/BencodeWide.v (re-exported here) *)
 
 Fixpoint lookup (k : bytes) (d : list (bytes * value)) : option value :=
   match d with
